@@ -21,7 +21,8 @@ CANON = {'quote': 'bare', 'kwcase': 'title', 'string': 'single', 'settings_order
          'null_word': False, 'note_pad': 'tight', 'space': ' ', 'comment_style': 'line', 'comment_place': 'above'}
 FAULTS = ["illegal_char_line", "stray_identifier_line", "stray_comma_line", "delete_close_brace", "duplicate_close_brace",
           "delete_open_brace", "unterminated_string", "column_without_type", "unknown_setting", "unknown_index_type",
-          "bad_ref_operator", "bad_action", "bad_colour", "text_after_close_brace", "delete_open_bracket", "delete_close_bracket"]
+          "bad_ref_operator", "bad_action", "bad_colour", "text_after_close_brace", "delete_open_bracket", "delete_close_bracket",
+          "duplicate_open_bracket", "duplicate_close_bracket"]
 _HEADS = [('Table ', 'table_head', 'table'), ('Enum ', 'enum_head', 'enum'), ('TableGroup ', 'group_head', 'group'),
           ('Project ', 'project_head', 'project'), ('Ref', 'ref_head', 'ref'), ('indexes', 'indexes_head', 'indexes'),
           ('Note ', 'sticky_head', 'note'), ('Note {', 'note_head', 'note')]
@@ -79,6 +80,9 @@ def label(lines: List[str]) -> List[Dict[str, Any]]:
             code = re.sub(r"'(?:[^'\\]|\\.)*'", "''", s)
             if re.search(r'\[.*\]', code):
                 feats.append('settings')
+            bare = re.sub(r'"[^"]*"|`[^`]*`', '', code)
+            if bare.count('[') + bare.count(']') > 0 and (bare.count('['), bare.count(']')) == (s.count('['), s.count(']')):
+                feats.append('brackets_outside_literals')
             if re.search(r'\btype: \w+', code):
                 feats.append('index_type')
             if re.search(r'\b(update|delete): ', code):
@@ -128,6 +132,15 @@ def apply_fault(lines: List[str], i: int, fault: str, variant: int) -> List[str]
     elif fault == 'delete_close_bracket':
         k = ln.rindex(']')
         new[i] = ln[:k] + ln[k + 1:]
+    elif fault == 'duplicate_open_bracket':
+        # every opening bracket of the line in turn (settings list, array suffix of a type), glued or spaced
+        ks = [m.start() for m in re.finditer(r'\[', ln)]
+        k = ks[(variant // 2) % len(ks)]
+        new[i] = ln[:k] + ('[[' if variant % 2 == 0 else '[ [') + ln[k + 1:]
+    elif fault == 'duplicate_close_bracket':
+        ks = [m.start() for m in re.finditer(r'\]', ln)]
+        k = ks[(variant // 2) % len(ks)]
+        new[i] = ln[:k] + (']]' if variant % 2 == 0 else '] ]') + ln[k + 1:]
     return new
 
 
@@ -153,7 +166,7 @@ def _exec_chunk(items):
 
 
 def main(argv: List[str]) -> int:
-    rep = core.Report('C07', 'Malformed.tla: 16 fault kinds applied at every line of TLC-generated documents printed canonically; the outcome '
+    rep = core.Report('C07', 'Malformed.tla: 18 fault kinds applied at every line of TLC-generated documents printed canonically; the outcome '
                              'of the parse call validated by TLC for every (fault, site) pair that ProvablyInvalid lists')
     rep.rule = ('case = (document seed, line, fault kind, variant); only pairs listed by Malformed!ProvablyInvalid are judged; every '
                 'judged case is non-trivial (exactly one fault)')
@@ -172,10 +185,10 @@ def main(argv: List[str]) -> int:
             for fault in FAULTS:
                 if i >= len(lines) and fault not in ('illegal_char_line', 'stray_identifier_line', 'stray_comma_line'):
                     continue
-                for variant in range(3 if fault in ('illegal_char_line', 'bad_colour', 'bad_ref_operator', 'text_after_close_brace', 'unknown_setting') else 1):
+                for variant in range(4 if fault in ('duplicate_open_bracket', 'duplicate_close_bracket') else 3 if fault in ('illegal_char_line', 'bad_colour', 'bad_ref_operator', 'text_after_close_brace', 'unknown_setting') else 1):
                     try:
                         new = apply_fault(lines + ([''] if i >= len(lines) else []), i, fault, variant + (seed if fault != 'unknown_setting' else 0))
-                    except (ValueError, AttributeError):
+                    except (ValueError, AttributeError, ZeroDivisionError):
                         continue            # the line has nothing this fault could be applied to
                     if new == lines:
                         continue
